@@ -65,7 +65,13 @@ class Dims:
             return self.same(a, b, e, 'branches of ?:')
         if k in ('BinaryOperator', 'CXXOperatorCallExpr'):
             op = e.op
-            l, r = e.child('lhs'), e.child('rhs')
+            if k == 'CXXOperatorCallExpr':
+                aa = e.args
+                if len(aa) == 1 and op == '-':
+                    return self.dim(aa[0])
+                l, r = (aa[0], aa[1]) if len(aa) == 2 else (None, None)
+            else:
+                l, r = e.child('lhs'), e.child('rhs')
             if l is None or r is None:
                 return None
             isp = lambda n_: '*' in (n_.t or '') and not (n_.t or '').rstrip().endswith(')')
@@ -114,6 +120,11 @@ class Dims:
             name = (e.callee or '').split('::')[-1]
             spec = METHOD_DIMS.get(name)
             o = self.dim(e.child('obj'))
+            if name == 'normalize':
+                ob = _strip_casts(e.child('obj'))
+                if ob is not None and ob.k == 'DeclRefExpr':
+                    self.env[lvalue_key(ob)] = Fraction(0)   # in-place normalisation: the vector becomes a direction
+                return o
             if spec == 'obj':
                 return o
             if spec == 'obj2':
@@ -177,6 +188,8 @@ class Dims:
                             self.env[key] = None
                     else:
                         self.env[key] = dl + dr if op == '*=' else dl - dr
+            elif s.k == 'CXXMemberCallExpr' and (s.callee or '').endswith('::normalize') and s.parent is not None and s.parent.k in ('CompoundStmt', 'IfStmt', 'ForStmt', 'WhileStmt'):
+                self.dim(s)
             elif s.k in ('IfStmt', 'WhileStmt', 'ForStmt', 'DoStmt') and s.child('cond') is not None:
                 self.dim(s.child('cond'))
             elif s.k == 'ReturnStmt' and s.child('value') is not None:
